@@ -369,6 +369,7 @@ fn raw_world(c: &RawCodeCase) -> WorldCase {
             ty: r::TxType::Legacy,
             caller: 0,
             to: Some(pool::IDX_CONTRACT0),
+            to_extra: None,
             value: r::U256::from(c.value as u64),
             data: vgen::world::DataSpec::Bytes(c.calldata.clone()),
             gas: vgen::world::GasSel::Fixed(30_000 + c.gas as u64),
@@ -927,6 +928,7 @@ fn depth_world(c: &DepthCase) -> WorldCase {
             ty: r::TxType::Legacy,
             caller: 0,
             to: Some(pool::IDX_CONTRACT0),
+            to_extra: None,
             value: r::U256::zero(),
             data: vgen::world::DataSpec::Bytes(vec![]),
             gas: vgen::world::GasSel::Fixed(1u64 << 40),
